@@ -65,8 +65,17 @@ class Driver:
         if not lines:
             return []
         self.calls += len(lines)
-        p = subprocess.run([DRIVER], input=("\n".join(lines) + "\n").encode(), stdout=subprocess.PIPE,
-                           stderr=subprocess.PIPE, timeout=3600)
+        p = None
+        for attempt in range(60):
+            try:
+                p = subprocess.run([DRIVER], input=("\n".join(lines) + "\n").encode(), stdout=subprocess.PIPE,
+                                   stderr=subprocess.PIPE, timeout=3600)
+                break
+            except (FileNotFoundError, PermissionError, OSError) as e:
+                # another check is relinking the driver right now (regenerated model): wait for it
+                if attempt == 59:
+                    raise RuntimeError("driver binary unavailable: %s" % e)
+                time.sleep(1.0)
         out = p.stdout.decode().split("\n")
         if out and out[-1] == "":
             out.pop()
@@ -207,7 +216,7 @@ def failing_modules(log):
     return sorted(mods), errs[:8]
 
 
-def prepare(prop, need_driver=True):
+def prepare(prop, need_driver=True, tier="quick"):
     """extract + build + audit under a lock shared by all checks"""
     st = BuildStatus()
     t0 = time.time()
@@ -261,6 +270,14 @@ def prepare(prop, need_driver=True):
                 elif not set(st.axioms[t]) <= ALLOWED_AXIOMS:
                     st.ok = False
                     st.problems.append(("audit", "%s uses axioms %s" % (t, st.axioms[t])))
+        # thorough tier: the compiled Props module and everything it imports re-checked by the independent checker
+        st.leanchecker = None
+        if tier == "thorough" and rc == 0:
+            rc4, out4 = lake(["env", "leanchecker", "MutagenModel.Props." + prop])
+            st.leanchecker = (rc4 == 0)
+            if rc4 != 0:
+                st.ok = False
+                st.problems.append(("leanchecker", "leanchecker rejects MutagenModel.Props.%s: %s" % (prop, out4[-400:])))
     st.wall = time.time() - t0
     return st
 
@@ -378,7 +395,9 @@ def write_evidence(ctx, rc, nviol):
     cov = {
         "obligations": max(obligations, 0),
         "discharged": discharged,
-        "checker_cmd": "cd lean && lake build MutagenModel.Props.%s && lake env lean .lake/audit_%s.lean   # run by ./check %s" % (ctx.prop, ctx.prop, ctx.prop),
+        "checker_cmd": "cd lean && lake build MutagenModel.Props.%s && lake env lean .lake/audit_%s.lean   # run by ./check %s" % (ctx.prop, ctx.prop, ctx.prop)
+                       + ("; lake env leanchecker MutagenModel.Props.%s (%s)" % (ctx.prop, "accepted" if getattr(ctx.build, "leanchecker", None) else "REJECTED")
+                          if getattr(ctx.build, "leanchecker", None) is not None else ""),
         "trusted_base": [
             "Lean 4.33.0 kernel",
             "axioms used by the property theorems: " + (", ".join(axioms_used) if axioms_used else "none"),
@@ -440,7 +459,7 @@ def main(argv):
                 pass
     try:
         mod = importlib.import_module("props." + prop.lower())
-        ctx.build = prepare(prop, need_driver=getattr(mod, "NEED_DRIVER", True))
+        ctx.build = prepare(prop, need_driver=getattr(mod, "NEED_DRIVER", True), tier=tier)
         ctx.driver = Driver(ctx.build.driver_ok)
         if replay:
             payload = json.load(open(replay))
